@@ -7,6 +7,7 @@ import MambaVerif.Model.PyExpr
 import MambaVerif.Model.Ty
 import MambaVerif.Model.Range
 import MambaVerif.Props.C02
+import MambaVerif.Model.Imports
 
 open MV
 
@@ -49,6 +50,15 @@ def handle (mode : String) (payload : String) : String :=
         hexOfBytes (renderToks ts).toUTF8 ++ "\t" ++ parsed
       | none => "bad core"
     | none => "bad sexp"
+  | "imports" =>
+    let ops := (payload.splitOn " ").filter (· != "") |>.map fun o =>
+      match o.splitOn ":" with
+      | ["i", m] => some (ImpOp.imp m)
+      | ["f", m, x] => some (ImpOp.frm m x)
+      | _ => none
+    if ops.all Option.isSome then
+      "ok " ++ "|".intercalate (Imp.run (ops.filterMap id)).render
+    else "bad op"
   | "commadelim" =>
     -- payload: space separated hex items; result: hex of C02.commaDelimited
     let items := (payload.splitOn " ").filter (· != "") |>.map (fun h => if h == "-" then some "" else unhexString h)
